@@ -93,6 +93,9 @@ class Module(object):
         self.source = source
         self.is_pkg = is_pkg
         self.tree = ast.parse(source, filename=path)
+        if not os.environ.get("WV_NO_DESUGAR"):
+            from .desugar import desugar
+            self.tree = desugar(self.tree)
         self.lines = source.splitlines()
         self.imports = {}  # local name -> ("module", dotted) | ("symbol", dotted_module, name)
         self.star_imports = []  # dotted module names
